@@ -114,6 +114,9 @@ def main(pid, tier, jobs=None):
     if only:
         k, _, v = only.partition('=')
         structures = [s for s in structures if str(s.get(k)) == v]
+        if not structures:
+            print('VX_ONLY=%s selects no structure' % only)
+            return 2
     opts = dict(getattr(mod, 'EXPLORE_OPTS', {}))
     opts.update(getattr(mod, 'EXPLORE_OPTS_TIER', {}).get(tier, {}))
     if tier == 'quick':
@@ -326,7 +329,7 @@ def main(pid, tier, jobs=None):
     print('%s %s: structures=%d paths=%d (outside precondition %d) obligations=%d discharged=%d queries=%d solver=%.1fs wall=%.1fs' % (
         pid, tier, len(structures), paths, aborted, obligations, discharged, feas + prop, solver_s, wall))
     if os.environ.get('VX_PROFILE'):
-        top = sorted(results, key=lambda r: -r['paths'])[:25]
+        top = sorted(results, key=lambda r: -r["wall_s"])[:25]
         for r in top:
             print('  PROFILE paths=%d wall=%.1fs %s' % (r['paths'], r['wall_s'], json.dumps(r['structure'])[:120]))
     if problems:
